@@ -1954,27 +1954,28 @@ func c10SkipAtEquality(p *Prog, r *Report, rule string) {
 	info := fi.Pkg.TypesInfo
 	f := p.FlatInl(fi)
 	cons := kStoreSet + "#skip-directories-that-are-not-larger"
-	// minSize: the variable that receives dir.Free on the retry path
-	var minObj types.Object
-	for _, n := range f.Nodes {
-		if as, ok := n.Ast.(*ast.AssignStmt); ok && len(as.Lhs) == len(as.Rhs) {
-			for i, rhs := range as.Rhs {
-				if sel, ok := ast.Unparen(rhs).(*ast.SelectorExpr); ok && sel.Sel.Name == "Free" {
-					if o := objOf(info, as.Lhs[i]); o != nil && as.Tok == token.ASSIGN {
-						minObj = o
-					}
-				}
+	// minSize: the place (a variable, or a field of the object that carries the attempt) that receives dir.Free on
+	// the retry path
+	var dirObj types.Object
+	for _, body := range p.deepBodies(fi) {
+		for _, rs := range rangeLoops(body) {
+			if c, ok := ast.Unparen(rs.X).(*ast.CallExpr); ok && p.callIs(fi.Pkg, c, kDirsIterate) && rs.Key != nil {
+				dirObj = objOf(info, rs.Key)
 			}
 		}
 	}
-	if minObj == nil {
+	var mins *placeSet
+	if dirObj != nil {
+		mins = minPlaces(f, dirObj)
+	}
+	if mins == nil || len(mins.keys) == 0 {
 		r.Undecided(rule, cons, p.pos(fi.Decl), "the variable remembering the free space of the failed attempt was not found")
 		return
 	}
 	stores := setOf(f.CallNodes(kContentStore))
 	found := false
 	for _, n := range f.Nodes {
-		if !n.IsCond || !usesObj(info, n.Ast, minObj) {
+		if !n.IsCond || !mins.mentions(n.Ast) {
 			continue
 		}
 		mentionsFree := false
@@ -1988,10 +1989,16 @@ func c10SkipAtEquality(p *Prog, r *Report, rule string) {
 			continue
 		}
 		found = true
-		env := &Env{P: p, Pkg: fi.Pkg, Vars: map[types.Object]*Val{minObj: intVal(5)}}
+		env := &Env{P: p, Pkg: fi.Pkg, Vars: map[types.Object]*Val{}}
 		env.Hook = func(env *Env, e ast.Expr) (*Val, bool) {
 			if sel, ok := e.(*ast.SelectorExpr); ok && sel.Sel.Name == "Free" {
 				return intVal(5), true
+			}
+			switch e.(type) {
+			case *ast.Ident, *ast.SelectorExpr:
+				if mins.has(e) {
+					return intVal(5), true
+				}
 			}
 			return nil, false
 		}
